@@ -615,7 +615,7 @@ fn apply_event_eager(b: &mut umya::Spreadsheet, ev: &Ev) {
 
 fn op_sheet(op: &Op) -> Option<usize> {
     match op {
-        Op::SetText { sheet, .. } | Op::SetRich { sheet, .. } | Op::SetNum { sheet, .. } | Op::SetBool { sheet, .. } | Op::SetFormula { sheet, .. } | Op::SetBlank { sheet, .. } | Op::RemoveCell { sheet, .. } | Op::Bold { sheet, .. } | Op::NumFmt { sheet, .. } | Op::FillColor { sheet, .. } | Op::Hyperlink { sheet, .. } | Op::Comment { sheet, .. } | Op::Merge { sheet, .. } | Op::DefinedName { sheet, .. } | Op::LocalName { sheet, .. } | Op::SheetRemoveRow { sheet, .. } | Op::SheetRemoveCol { sheet, .. } | Op::SheetInsertRow { sheet, .. } | Op::SheetInsertCol { sheet, .. } | Op::ColWidth { sheet, .. } | Op::RowHeight { sheet, .. } | Op::SetState { sheet, .. } | Op::Table { sheet, .. } | Op::CommentRich { sheet, .. } | Op::EditComment { sheet, .. } | Op::Format { sheet, .. } | Op::HideRow { sheet, .. } | Op::HideCol { sheet, .. } | Op::ClearComments { sheet } | Op::RowStyle { sheet, .. } | Op::ColStyle { sheet, .. } | Op::Image { sheet, .. } => Some(*sheet),
+        Op::SetText { sheet, .. } | Op::SetRich { sheet, .. } | Op::SetNum { sheet, .. } | Op::SetBool { sheet, .. } | Op::SetFormula { sheet, .. } | Op::SetBlank { sheet, .. } | Op::RemoveCell { sheet, .. } | Op::Bold { sheet, .. } | Op::NumFmt { sheet, .. } | Op::FillColor { sheet, .. } | Op::Hyperlink { sheet, .. } | Op::Comment { sheet, .. } | Op::Merge { sheet, .. } | Op::DefinedName { sheet, .. } | Op::LocalName { sheet, .. } | Op::SheetRemoveRow { sheet, .. } | Op::SheetRemoveCol { sheet, .. } | Op::SheetInsertRow { sheet, .. } | Op::SheetInsertCol { sheet, .. } | Op::ColWidth { sheet, .. } | Op::RowHeight { sheet, .. } | Op::SetState { sheet, .. } | Op::Table { sheet, .. } | Op::CommentRich { sheet, .. } | Op::EditComment { sheet, .. } | Op::Format { sheet, .. } | Op::HideRow { sheet, .. } | Op::HideCol { sheet, .. } | Op::ClearComments { sheet } | Op::RowStyle { sheet, .. } | Op::ColStyle { sheet, .. } | Op::Image { sheet, .. } | Op::Twin { sheet, .. } => Some(*sheet),
         _ => None,
     }
 }
@@ -640,16 +640,49 @@ fn ev_name(e: &Ev) -> &'static str {
     }
 }
 
-pub fn gen_source(sw: &mut Rng, wl: &mut Rng, tier: &str) -> Value {
-    let files = corpus_files();
-    if sw.chance(2, 5) && !files.is_empty() {
-        // corpus: small files in the quick tier
-        for _ in 0..20 {
-            let f = &files[sw.usize(files.len())];
-            let len = std::fs::metadata(format!("{}/{}", corpus_dir(), f)).map(|m| m.len()).unwrap_or(0);
-            if tier == "thorough" || len <= 60_000 {
-                return json!({"kind": "corpus", "file": f});
+/// Cost class of a corpus file: 0 fast, 1 slow (seconds per load/save chain), 2 heavy (tens of seconds and
+/// gigabytes). Measured (one load + three saves + reloads, release build): aaa_large 37 s / 6.9 GB, issue_216
+/// 29 s / 3.9 GB, issue_188_3 16 s, issue_233 14 s / 1.7 GB; issue_194_2 6 s, issue_188_2 2.7 s, issue_178* 2 s,
+/// issue_181* 1-2 s (a <col max="16384"> becomes 16 376 column records), issue_188 1.3 s; everything else
+/// below 0.25 s. Size is no proxy (aaa.xlsx: 227 KB, 0.16 s; issue_181_2.xlsx: 10 KB, 1.1 s), hence a table;
+/// files the table does not know are classed by size.
+pub fn file_cost(name: &str) -> u8 {
+    match name {
+        "aaa_large.xlsx" | "issue_216.xlsx" | "issue_188_3.xlsx" | "issue_233.xlsx" => 2,
+        "issue_194_2.xlsx" | "issue_188_2.xlsx" | "issue_178.xlsx" | "issue_178_2.xlsx" | "issue_181.xlsx" | "issue_181_2.xlsx" | "issue_188.xlsx" => 1,
+        _ => {
+            let len = std::fs::metadata(format!("{}/{}", corpus_dir(), name)).map(|m| m.len()).unwrap_or(0);
+            if len > 1_000_000 {
+                2
+            } else if len > 400_000 {
+                1
+            } else {
+                0
             }
+        }
+    }
+}
+
+/// quick tier: fast files always, slow ones one time in four, heavy ones never (thorough tier: all)
+pub fn pick_corpus_file(sw: &mut Rng, tier: &str) -> Option<String> {
+    let files = corpus_files();
+    if files.is_empty() {
+        return None;
+    }
+    for _ in 0..40 {
+        let f = &files[sw.usize(files.len())];
+        let c = file_cost(f);
+        if tier == "thorough" || c == 0 || (c == 1 && sw.chance(1, 4)) {
+            return Some(f.clone());
+        }
+    }
+    None
+}
+
+pub fn gen_source(sw: &mut Rng, wl: &mut Rng, tier: &str) -> Value {
+    if sw.chance(2, 5) {
+        if let Some(f) = pick_corpus_file(sw, tier) {
+            return json!({"kind": "corpus", "file": f});
         }
     }
     let sheets = 2 + sw.usize(4);
@@ -680,8 +713,7 @@ pub fn cases(run_seed: u64, tier: &str, _scratch: &str) -> Vec<Value> {
         _ => 4,
     };
     // the large corpus files cost seconds per load or save: fewer and shorter histories on them
-    let big = source["kind"] == "corpus"
-        && std::fs::metadata(format!("{}/{}", corpus_dir(), source["file"].as_str().unwrap_or(""))).map(|m| m.len()).unwrap_or(0) > 300_000;
+    let big = source["kind"] == "corpus" && file_cost(source["file"].as_str().unwrap_or("")) >= 1;
     let n_hist = if big { 3 } else if tier == "thorough" { 16 } else { 8 };
     let mut out = Vec::new();
     // workbook-level insert/remove rewrites every formula of every sheet through the formula
@@ -737,6 +769,31 @@ pub fn cases(run_seed: u64, tier: &str, _scratch: &str) -> Vec<Value> {
         c["events"] = serde_json::to_value(&evs).unwrap();
         c["chunk"] = json!([0u64, 0, 1, 7, 512, 4096][sw.usize(6)]);
         c["chunk_seed"] = hex64(sc.next_u64());
+        out.push(c);
+    }
+    // subset sweeps: some sheets are read (or removed while everything is unloaded), nothing is edited, the
+    // workbook is saved - "whatever subset of sheets is accessed" in its plainest form, cheap enough to be
+    // sampled often on the files of the corpus (up to nine sheets)
+    let n_sweeps = if generated { 1 } else if big { 3 } else if tier == "thorough" { 16 } else { 8 };
+    for k in 0..n_sweeps {
+        let mut evs = Vec::new();
+        let remove = sc.chance(1, 4);
+        for i in 0..9usize {
+            if sc.chance(1, 2) {
+                evs.push(if remove { Ev::RemoveSheet { i, by_name: sc.chance(1, 2) } } else { Ev::ReadSheet { i } });
+            }
+        }
+        if remove {
+            // positions shift with every removal: from the back, so that each index still means the same sheet
+            evs.reverse();
+        }
+        evs.push(Ev::Save { light: false });
+        let mut c = new_case("C11", crate::rng::mix(run_seed, 1000 + k as u64));
+        c["source"] = source.clone();
+        c["events"] = serde_json::to_value(&evs).unwrap();
+        c["chunk"] = json!(0u64);
+        c["chunk_seed"] = hex64(sc.next_u64());
+        c["sweep"] = json!(true);
         out.push(c);
     }
     out
